@@ -6,6 +6,7 @@
 //!   gsim show --prop C01 --seed 1 --run 17     print the generated schedule
 
 mod alloc;
+mod c07;
 mod check;
 mod ctx;
 mod elems;
@@ -186,6 +187,7 @@ fn cmd_run(args: &[String]) -> i32 {
             violations.push(serde_json::json!({
                 "run": i, "class": a.class, "family": format!("{:?}", a.family), "op_index": a.op_index,
                 "op_kind": a.op_kind, "detail": a.detail, "elem": format!("{:?}", spec.cfg.elem),
+                "fault": o.fault.map(|f| vec![f.at as u64, f.nth]),
             }));
             if violations.len() >= 8 {
                 break;
@@ -304,7 +306,13 @@ fn cmd_show(args: &[String]) -> i32 {
     let seed = arg_u64(args, "--seed", 1);
     let run = arg_u64(args, "--run", 0);
     let thorough = arg(args, "--tier") == Some("thorough");
-    let spec = generate(prop, seed, run, thorough);
+    let mut spec = generate(prop, seed, run, thorough);
+    if let Some(f) = arg(args, "--fault") {
+        let mut it = f.split(':');
+        let at: usize = it.next().unwrap().parse().expect("fault step");
+        let nth: u64 = it.next().unwrap().parse().expect("fault ordinal");
+        spec.faults.push(Fault { at, nth });
+    }
     let rf = ReplayFile {
         property: prop.name(),
         class: arg(args, "--class").unwrap_or("").to_string(),
